@@ -58,10 +58,11 @@ type analyzer struct {
 	pkgs      []*packages.Package
 	callees   map[funcKey]map[funcKey]bool // static call graph over goflow functions
 	bodyOf    map[funcKey]bool
-	streamy   map[funcKey]bool     // consumes uuid / clock / random stream (transitively)
-	methods   map[string][]funcKey // goflow methods by name (for interface calls)
-	uses      map[funcKey]int      // references (calls and method values) per function, non-test goflow code
-	ifaceUses map[string]int       // references to interface methods, by method name
+	streamy   map[funcKey]bool        // consumes uuid / clock / random stream (transitively)
+	methods   map[string][]funcKey    // goflow methods by name (for interface calls)
+	fninfo    map[*types.Func]*fnInfo // side-effect summaries (purity.go)
+	uses      map[funcKey]int         // references (calls and method values) per function, non-test goflow code
+	ifaceUses map[string]int          // references to interface methods, by method name
 }
 
 func fatal(f string, a ...any) {
@@ -105,6 +106,7 @@ func main() {
 
 	a := &analyzer{fset: pkgs[0].Fset, pkgs: mine}
 	a.buildCallGraph()
+	a.buildSummaries()
 	a.countUses()
 	versions := a.registeredVersions()
 
@@ -796,15 +798,31 @@ func (c *loopCtx) local(o types.Object) bool {
 	return o.Pos() >= c.loop.Body.Pos() && o.Pos() <= c.loop.Body.End()
 }
 
+// isRefType: can a value of this type reach other memory (a reference anywhere inside it, not only at top level)
 func isRefType(t types.Type) bool {
-	if t == nil {
+	return refTyped(t)
+}
+
+// labelInside: is the label declared inside the site's loop body (or is it the label of the site's loop itself,
+// in which case `continue L` is the next key)
+func (c *loopCtx) labelInside(name string) bool {
+	found := false
+	ast.Inspect(c.loop.Body, func(n ast.Node) bool {
+		if ls, ok := n.(*ast.LabeledStmt); ok && ls.Label.Name == name {
+			found = true
+		}
+		return true
+	})
+	if found {
 		return true
 	}
-	switch t.Underlying().(type) {
-	case *types.Pointer, *types.Map, *types.Slice, *types.Chan, *types.Interface, *types.Signature:
+	ast.Inspect(c.encl, func(n ast.Node) bool {
+		if ls, ok := n.(*ast.LabeledStmt); ok && ls.Label.Name == name && ls.Stmt == ast.Stmt(c.loop) {
+			found = true
+		}
 		return true
-	}
-	return false
+	})
+	return found
 }
 
 // owned: a local of the body that cannot alias state outliving the iteration: either its type holds no
@@ -969,8 +987,12 @@ func (c *loopCtx) isKey(e ast.Expr) bool {
 		return c.info.Uses[id] == c.keyObj
 	}
 	if ce, ok := e.(*ast.CallExpr); ok && len(ce.Args) == 1 {
+		// a conversion of the key only when it cannot identify two keys: identical underlying types
 		if tv, ok := c.info.Types[ce.Fun]; ok && tv.IsType() {
-			return c.isKey(ce.Args[0])
+			from := c.info.TypeOf(ce.Args[0])
+			if from != nil && types.Identical(from.Underlying(), tv.Type.Underlying()) {
+				return c.isKey(ce.Args[0])
+			}
 		}
 	}
 	return false
@@ -1140,7 +1162,10 @@ func (c *loopCtx) walk(n ast.Node, depth int) {
 		case token.GOTO:
 			c.add("EBreak")
 		case token.CONTINUE:
-			// next key: no effect
+			// `continue` = next key: no effect; `continue L` with L outside this loop's body leaves the loop like a break
+			if x.Label != nil && !c.labelInside(x.Label.Name) {
+				c.add("EBreak")
+			}
 		}
 	case *ast.SendStmt:
 		c.add("EChan")
@@ -1268,6 +1293,24 @@ func (c *loopCtx) callEffects(ce *ast.CallExpr, stmt bool) {
 			}
 		}
 		c.add("EStringBuild")
+		return
+	}
+	// a call whose callee may write state that outlives the iteration (through its receiver, its arguments,
+	// package-level variables, or in ways the summary cannot see) is an effect even when only its result is used
+	ownedRoot := func(e ast.Expr) bool {
+		switch ast.Unparen(e).(type) {
+		case *ast.CompositeLit, *ast.BasicLit, *ast.FuncLit:
+			return true
+		}
+		r := rootIdent(e)
+		return r != nil && c.owned(objOf(info, r))
+	}
+	if c.a.callImpure(info, ce, fn, ownedRoot) {
+		if stmt {
+			c.add("ECallStmt")
+		} else {
+			c.add("ECallImpure")
+		}
 		return
 	}
 	if stmt {
